@@ -167,11 +167,23 @@ class SourceIndex:
                 # derive: text is the trait name, the self type is the next struct/enum item
                 trait = text.strip()
                 ty = None
+                full = None
                 for k in range(l1 - 1, min(len(lines), l1 + 40)):
                     m = re.search(r'\b(?:struct|enum|union)\s+(\w+)', lines[k])
                     if m:
-                        ty = m.group(1); break
-                r = (ty, head_name(trait), ty, trait)
+                        ty = m.group(1)
+                        rest = lines[k][m.end():]
+                        full = ty
+                        if rest.startswith('<'):
+                            e = _balanced_skip(rest, 0)
+                            gen = rest[1:e - 1]
+                            # keep only the parameter names (drop bounds / defaults)
+                            names = [re.split(r'[:=]', g)[0].strip() for g in _split_commas(gen.replace('<', '(').replace('>', ')'))]
+                            names = [g for g in names if g and not g.startswith("'")]
+                            if names:
+                                full = '%s<%s>' % (ty, ', '.join(names))
+                        break
+                r = (ty, head_name(trait), full or ty, trait)
         self._impl_cache[span] = r
         return r
 
